@@ -3,6 +3,8 @@
 Totality over the enumerated language of PAT_EVENT_CODE; ordering clauses on all pairs of a canonical subset;
 the sorter on all short lists with repeated and missing disciplines."""
 import itertools
+from vlib import concpass
+from checks import crossapi
 from vlib import common, rxmc
 from vlib import orderpass
 from vlib.common import Report, Violation, HarnessError, Acc, pmap, merge
@@ -299,10 +301,14 @@ def run(tier):
              '3000W', '20KW', 'HJ', 'hj', 'PV', 'SP', 'SP7.26K', 'DT1.5K', 'JT800', 'WT', 'DEC', 'HEP', 'PEN', '1HR', '24HR', 'XC', None, '', 'garbage']
     oc = [(U + 'discipline_sort_key', (c,)) for c in codes] + [(U + 'get_distance', (c,)) for c in codes if c] + [(U + 'text_discipline_sort_key', (c,)) for c in codes[:12]]
     orderpass.part(rep, oc, 'sort-key call-order pass')
+    crossapi.part(rep, PID, tier)
+    concpass.part(rep, PID, tier)
     return rep.finish()
 
 
 def replay(rec):
+    if concpass.is_conc(rec):
+        return concpass.replay(rec)
     U = common.mod('athlib.utils')
     for k in ('code', 'a', 'b'):
         c = rec['case'].get(k)
